@@ -259,6 +259,8 @@ def MasterIndex.prepareIncrementalLoad (mi : MasterIndex) (listed : List ID) : O
   -- the first index is always final so this can't actually fail
   if !mi.first.final then .panic "internal error - failed to get index IDs" else
   let loadedIDs := mi.first.ids
+  -- drop indexes left behind by a Load that failed before merging them (fix/C08-stale-index-after-aborted-load)
+  let mi := { mi with rest := mi.rest.filter fun i => !i.final || i.ids.isEmpty }
   if loadedIDs.any (fun id => !listed.contains id) then .ok (MasterIndex.new, [])
   else .ok (mi, loadedIDs)
 
